@@ -34,7 +34,6 @@ TRUSTED_BASE = ["Lean 4.33 kernel", "axioms: propext, Classical.choice, Quot.sou
 ASSUMPTIONS = ["weights > 0, scales > 0, constraint system feasible (by construction of the generator)",
                "comparison tolerance 1e-5 * max(1, max|desired|, max|gap|) as in the property text"]
 EXHAUSTIVE = {"quick": False, "thorough": False}
-WIP = True
 
 def plan(tier, seed, searching):
     # a solver that never returns (seen with mutants) must become a CRASH verdict naming the open
